@@ -11,9 +11,9 @@
    checked by correspondence (pretty-printing generated ASTs under all spellings/layouts and comparing the parser's
    ASTs and the verdicts; tools/gv/props/c14.py). *)
 From GV.Model Require Import Ast Spec.
-From GV.Model Require Import Lex ValueParse QueryParse.
+From GV.Model Require Import Lex ValueParse QueryParse OpParse.
 From GV.Proofs Require Import LexProps ValueParseProps ValueSpellProps ValueSpellExample.
-From GV.Proofs Require Import QueryParseProps QuerySpellProps QuerySpellExample ThisProps.
+From GV.Proofs Require Import QueryParseProps QuerySpellProps QuerySpellExample ThisProps OpParseProps.
 
 Theorem C14_keyword_tables_are_the_documented_ones :
   set_eqb kw_in_keyword ["in"; "IN"] = true /\ set_eqb kw_keys ["keys"; "KEYS"] = true /\
@@ -174,3 +174,26 @@ Theorem C14_leading_this_same_clause : forall re lit_ok r env q all c w m neg,
   access_s re lit_ok r env (GuardAccessClause (AccessQuery q all) c w m neg).
 Proof. exact leading_this_same_clause. Qed.
 Print Assumptions C14_leading_this_same_clause.
+
+(* ---- the operator grammar (Model/OpParse.v = parser.rs value_cmp) ---- *)
+
+(* either case of a keyword operator is the same operator, whatever follows *)
+Theorem C14_operator_keyword_case : forall o t, is_keyword_spelling o t -> forall rest, value_cmp (t +++ rest) = POk (o, false) rest.
+Proof. exact plain_keyword_operator. Qed.
+Print Assumptions C14_operator_keyword_case.
+
+(* `not `, `NOT ` (any run of blanks) and `!` in front of a keyword operator are one negation *)
+Theorem C14_the_three_negations_agree : forall o t, is_keyword_spelling o t -> forall b1 b2 rest,
+  blanks b1 -> b1 <> EmptyString -> blanks b2 -> b2 <> EmptyString ->
+  value_cmp ("not" +++ (b1 +++ (t +++ rest))) = value_cmp ("NOT" +++ (b2 +++ (t +++ rest))) /\
+  value_cmp ("not" +++ (b1 +++ (t +++ rest))) = value_cmp (String "!" (t +++ rest)).
+Proof. exact the_three_negations_agree. Qed.
+Print Assumptions C14_the_three_negations_agree.
+
+Theorem C14_operator_parser_consumes : forall s x r, value_cmp s = POk x r -> (String.length r < String.length s)%nat.
+Proof. exact value_cmp_consumes. Qed.
+Print Assumptions C14_operator_parser_consumes.
+
+Theorem C14_message_opener_is_not_an_operator : forall s, value_cmp ("<<" +++ s) = PErr.
+Proof. exact message_opener_is_not_an_operator. Qed.
+Print Assumptions C14_message_opener_is_not_an_operator.
